@@ -234,7 +234,7 @@ impl Handler<ContinueRequest> for ContinueRequestHandler {
         conn: &mut DebugSession,
         _args: ContinueArguments,
     ) -> MosResult<ContinueResponse> {
-        conn.machine_adapter_mut()?.resume()?;
+        conn.started_machine_adapter_mut()?.resume()?;
         Ok(ContinueResponse {
             all_threads_continued: Some(true),
         })
@@ -528,7 +528,7 @@ struct NextRequestHandler {}
 
 impl Handler<NextRequest> for NextRequestHandler {
     fn handle(&self, conn: &mut DebugSession, _args: NextArguments) -> MosResult<()> {
-        conn.machine_adapter_mut()?.next()?;
+        conn.started_machine_adapter_mut()?.next()?;
         Ok(())
     }
 }
@@ -537,7 +537,7 @@ struct StepInRequestHandler {}
 
 impl Handler<StepInRequest> for StepInRequestHandler {
     fn handle(&self, conn: &mut DebugSession, _args: StepInArguments) -> MosResult<()> {
-        conn.machine_adapter_mut()?.step_in()?;
+        conn.started_machine_adapter_mut()?.step_in()?;
         Ok(())
     }
 }
@@ -546,7 +546,7 @@ struct StepOutRequestHandler {}
 
 impl Handler<StepOutRequest> for StepOutRequestHandler {
     fn handle(&self, conn: &mut DebugSession, _args: StepOutArguments) -> MosResult<()> {
-        conn.machine_adapter_mut()?.step_out()?;
+        conn.started_machine_adapter_mut()?.step_out()?;
         Ok(())
     }
 }
@@ -555,7 +555,7 @@ struct PauseRequestHandler {}
 
 impl Handler<PauseRequest> for PauseRequestHandler {
     fn handle(&self, conn: &mut DebugSession, _args: PauseArguments) -> MosResult<()> {
-        conn.machine_adapter_mut()?.pause()?;
+        conn.started_machine_adapter_mut()?.pause()?;
         Ok(())
     }
 }
@@ -807,6 +807,21 @@ impl DebugSession {
             )
             .into()),
         }
+    }
+
+    /// The adapter of a machine that has been started ('configurationDone' was received). Resuming, pausing or
+    /// stepping a machine that is still launching would publish a running state change during launch
+    fn started_machine_adapter_mut(
+        &self,
+    ) -> MosResult<RwLockWriteGuard<Box<dyn MachineAdapter + Send + Sync>>> {
+        let adapter = self.machine_adapter_mut()?;
+        if adapter.running_state()? == MachineRunningState::Launching {
+            return Err(Diagnostics::from(Diagnostic::error().with_message(
+                "The machine has not been started yet (no 'configurationDone' received)",
+            ))
+            .into());
+        }
+        Ok(adapter)
     }
 
     fn connection(&self) -> Option<Arc<DebugConnection>> {
